@@ -642,6 +642,8 @@ def check_index_history(case):
             if not model:
                 continue
             c = model[stp['i'] % len(model)]
+            if kind in ('auto', 'int') and isinstance(c, int) and stp['j'] % 3 == 0:
+                c = float(c)   # the same key as the held int (on an automatic integer index membership is decided by position)
             r = lib(ix.append, c)
             if not isinstance(r, Raised):
                 raise Failure('no-raise', 'append of duplicate %r accepted' % (c,))
